@@ -30,6 +30,20 @@ type Gen struct {
 	Thorough bool
 	// which fns to emit (C06: 1,2; C07: 3; C10: 4)
 	Want map[int]bool
+	// optional selection of case families by tag class (nil = all); consulted before a case is run
+	TagSel func(class string) bool
+}
+
+// WantTag reports whether cases of this tag are wanted.
+func (g *Gen) WantTag(tag string) bool {
+	if g.TagSel == nil {
+		return true
+	}
+	class := tag
+	if i := strings.Index(tag, ";"); i >= 0 {
+		class = tag[:i]
+	}
+	return g.TagSel(class)
 }
 
 type regEntry struct {
